@@ -232,11 +232,18 @@ check("C12", "exploration",
       "by a scripted RngCore under an exhaustive weighted exploration of every Bernoulli outcome sequence down to path mass 1e-16, "
       "normalised accepted mass compared with A*exp(-eps|x-n|) on 0..2n (1e-9); every support point x in 0..=2n forced through "
       "sample_shares for widths 8/16/32 and both directions; NoiseParams::new / OPRFPaddingDp::new on the cross product of "
-      "per-parameter alphabets. distinct_nontrivial = distinct configurations / support points / parameter tuples executed.",
+      "per-parameter alphabets. Released buckets: dp_for_histogram on the three real helpers (32 buckets, output widths 8/16/32, both "
+      "security modes, epsilon in {0.5, 2, 8} (0.1)): the same world run on the all-zero histogram gives the noise vector N, every "
+      "other histogram h (incl. totals at the top of the range) must be released as h + N mod 2^w, as a consistent sharing, and N must "
+      "lie within three support radii. distinct_nontrivial = distinct configurations / support points / parameter tuples / buckets executed.",
       [{"name": "noise", "config": "A", "test": "protocol::dp::verif::c12::run",
-        "require": {"any": {"truncation_points_checked": 200, "distinct:sampler_configs": 6, "share_mapping_cases_w32": 50}}}],
+        "require": {"any": {"truncation_points_checked": 200, "distinct:sampler_configs": 6, "share_mapping_cases_w32": 50}}},
+       {"name": "released", "config": "A", "test": "protocol::dp::verif::c12n::run",
+        "require": {"any": {"released_buckets": 1000, "noise_vectors": 10, "distinct:noise_values": 8}}}],
       assumptions=["rand::distributions::Bernoulli draws one u64 per sample and succeeds iff it is below p*2^64",
-                   "dummy-record sharings and the released-bucket identity (items 5, 6 of the design) are exercised through C01/C02 runs, not here"],
+                   "the released-bucket identity is checked differentially (same seed and gate => same noise): the three individual draws are not separated",
+                   "dummy-record sharings are exercised through the padded C01/C02 runs (histogram unchanged by padding), not here",
+                   "the binomial mechanism (not reachable from a query) only in the semi-honest mode"],
       exhaustive=True, engine="E6 coin + E5 domain",
       technique="weighted exhaustive exploration of the probabilistic sampler's coin tree (every outcome sequence above a mass floor, "
                 "exact path probabilities); exhaustive support-point and parameter-alphabet enumeration",
